@@ -169,4 +169,61 @@ Section HyraxFacts.
     rewrite <- row_mul_cols. fold lt. unfold gadd, gscale. cbn [fst snd].
     rewrite vadd_pad_scale by lia. f_equal. ring.
   Qed.
+  (* ---------------- several polynomials at one point ---------------- *)
+  (* a (state, row commitments) pair produced by commit under this key *)
+  Definition committed (keylen nv : nat) (sr : HState * list gel) : Prop :=
+    exists evals ctape nd, h_commit1 keylen nv evals ctape = Ok (snd sr, fst sr, nd).
+
+  Lemma h_loop_complete keylen nv point l r :
+    (1 <= keylen)%nat -> length point = nv -> keylen = (2 ^ (nv / 2))%nat ->
+    h_lr point = (l, r) -> length l = keylen -> length r = keylen ->
+    forall srs otape chal pfs ot' ch',
+      Forall (committed keylen nv) srs ->
+      h_open_loop keylen point (map fst srs) otape chal = Ok (pfs, ot', ch') ->
+      h_check_loop keylen point (map snd srs) (map (fun sr => vdot (row_mul (hs_mat (fst sr)) keylen l) r) srs) pfs chal
+        = Ok (true, ch').
+  Proof.
+    intros Hk Hp Hkey Elr Ll Lr.
+    induction srs as [|[st rows] srs IH]; intros otape chal pfs ot' ch' Hc H.
+    - cbn [map h_open_loop] in H. injection H as <- _ <-. reflexivity.
+    - assert (HC : committed keylen nv (st, rows) /\ Forall (committed keylen nv) srs) by (inversion Hc; split; assumption).
+      destruct HC as [(evals & ctape & nd & Hc1) Hc2]. cbn [fst snd] in Hc1.
+      cbn [map h_open_loop fst] in H. destruct chal as [|c chal']; [discriminate|].
+      destruct (h_open1 keylen point st otape c) as [[pf k]| |] eqn:Eo; cbn [bind] in H; try discriminate.
+      destruct (h_open_loop keylen point (map fst srs) (skipn k otape) chal') as [[[pfs0 ot0] ch0]| |] eqn:El; cbn [bind] in H; try discriminate.
+      injection H as <- <- <-.
+      cbn [map h_check_loop fst snd].
+      pose proof (h_check_complete keylen nv evals ctape rows st nd point otape c pf k Hk Hp Hc1 Hkey Eo) as C.
+      rewrite Elr in C. rewrite (C Ll Lr). cbn [bind].
+      exact (IH _ _ _ _ _ Hc2 El).
+  Qed.
+
+  Lemma h_open_loop_length keylen point : forall sts otape chal pfs ot' ch',
+    h_open_loop keylen point sts otape chal = Ok (pfs, ot', ch') -> length pfs = length sts.
+  Proof.
+    induction sts as [|st sts IH]; intros otape chal pfs ot' ch' H.
+    - cbn in H. injection H as <- _ _. reflexivity.
+    - cbn [h_open_loop] in H. destruct chal as [|c chal']; [discriminate|].
+      destruct (h_open1 keylen point st otape c) as [[pf k]| |]; cbn [bind] in H; try discriminate.
+      destruct (h_open_loop keylen point sts (skipn k otape) chal') as [[[pfs0 ot0] ch0]| |] eqn:El; cbn [bind] in H; try discriminate.
+      injection H as <- _ _. cbn [length]. f_equal. exact (IH _ _ _ _ _ El).
+  Qed.
+
+  (* open of a list of committed polynomials at one point is accepted by check for the true values, and the verifier
+     ends on the prover's challenge position *)
+  Theorem h_list_complete keylen nv point srs otape chal pfs ot' ch' :
+    (1 <= keylen)%nat -> length point = nv -> keylen = (2 ^ (nv / 2))%nat ->
+    length (fst (h_lr point)) = keylen -> length (snd (h_lr point)) = keylen ->
+    Forall (committed keylen nv) srs ->
+    h_open_list keylen point (map fst srs) otape chal = Ok (pfs, ot', ch') ->
+    h_check_list keylen point (map snd srs)
+      (map (fun sr => vdot (row_mul (hs_mat (fst sr)) keylen (fst (h_lr point))) (snd (h_lr point))) srs) pfs chal = Ok (true, ch').
+  Proof.
+    intros Hk Hp Hkey Ll Lr Hc H. unfold h_open_list in H. unfold h_check_list.
+    destruct (Nat.odd (length point)); [discriminate|].
+    destruct (h_lr point) as [l r] eqn:Elr. cbn [fst snd] in *.
+    pose proof (h_open_loop_length keylen point (map fst srs) otape chal pfs ot' ch' H) as Lp. rewrite map_length in Lp.
+    rewrite !map_length, Lp, Nat.eqb_refl. cbn [negb orb].
+    exact (h_loop_complete keylen nv point l r Hk Hp Hkey Elr Ll Lr srs otape chal pfs ot' ch' Hc H).
+  Qed.
 End HyraxFacts.
